@@ -5,17 +5,17 @@ PROPS = {"C10": dict(
     module="Proofs.Properties.C10",
     theorems=[
         "Zrnt.Proofs.C10.updateJustified_returns_partial",
-        "Zrnt.Proofs.C10.updateJustified_returns_false",
+        "Zrnt.Proofs.C10.Old.updateJustified_returns_false",
         "Zrnt.Proofs.C10.older_equal_noop",
         "Zrnt.Proofs.C10.outside_subtree_refused_finalized",
         "Zrnt.Proofs.C10.outside_subtree_refused_justified",
-        "Zrnt.Proofs.C10.prune_exact_false",
-        "Zrnt.Proofs.C10.prune_without_sink_false",
-        "Zrnt.Proofs.C10.post_prune_ops_total_false",
-        "Zrnt.Proofs.C10.no_panic_unpruned_partial",
+        "Zrnt.Proofs.C10.Old.prune_exact_false",
+        "Zrnt.Proofs.C10.Old.prune_without_sink_false",
+        "Zrnt.Proofs.C10.Old.post_prune_ops_total_false",
+        "Zrnt.Proofs.C10.no_panic_quiet",
         "Zrnt.Proofs.C10.updates_refine_partial",
     ],
-    modes=[dict(name="fc10", stateful=True, max_shrinks=4,
+    modes=[dict(name="fc10", stateful=True, max_shrinks=3,
                 nontrivial=_nontrivial(("justify", "nodes", "head", "just", "fin", "pinq", "block", "att", "slot")))],
     level="proof",
     trusted_base=FC_TB,
